@@ -294,6 +294,25 @@ class FitModelImpl(Contract):
         P.oblige(f"{pre}.estimator_is_the_adapter", z3.BoolVal(gs.kwargs.get("estimator") is ad["obj"]))
         first = all(ad["kwargs"].get(k) is call.grid.d[k].items[0] for k in ("process_noise", "sensor_models", "sensor_noises", "calibration_map"))
         P.oblige(f"{pre}.adapter_built_from_grid_entries", z3.BoolVal(first and ad["kwargs"].get("symbolic_model") is call.obj.fields["symbolic_model"]))
+        # the configuration the search starts from: the grid's first candidate for every Config field the grid tunes, python.Config's
+        # default for every field it does not - held in a mapping that is this fit's OWN (not the supplied grid, not a class- or
+        # module-level object another fit would see)
+        cfg = ad["kwargs"].get("config")
+        params = cfg.fields.get("_params") if isinstance(cfg, SObj) else None
+        ok_shape = isinstance(params, PyDict)
+        P.oblige(f"{pre}.start_configuration.is_a_config_view_over_a_mapping", z3.BoolVal(ok_shape))
+        if ok_shape:
+            mod = I.load_module(MOD)
+            shared = [v for v in list(getattr(mod, "globals", {}).values()) if v is params]
+            cv = I.module_attr(mod, "ConfigView")
+            k = cv
+            while isinstance(k, ClassV):
+                shared += [v for v in k.attrs.values() if v is params or (isinstance(v, tuple) and len(v) == 2 and v[0] == "val" and v[1] is params)]
+                k = next((b for b in k.bases if isinstance(b, ClassV)), None)
+            P.oblige(f"{pre}.start_configuration.mapping_is_this_fits_own", z3.BoolVal(not shared and params is not call.grid), note="the mapping behind the configuration is a class/module-level object or the supplied grid: another fit in the same process sees it")
+            want = {"innovation_filtering": 1.0, "max_dt_sec": 0.1, "extra_validation": False, "common_subexpression_elimination": True}
+            got = {f: params.d.get(f, "<missing>") for f in want}
+            P.oblige(f"{pre}.start_configuration.grid_candidate_or_default_per_field", z3.BoolVal(all(type(got[f]) is type(want[f]) and got[f] == want[f] for f in want)), note=f"configuration fields {got}, expected {want}")
         P.oblige(f"{pre}.grid_search_fitted_on_the_data", z3.BoolVal("_fit_called" in gs.attrs))
         P.oblige(f"{pre}.fit_estimator_is_best_estimator", z3.BoolVal(call.obj.fields.get("fit_estimator") is gs.attrs.get("best_estimator_")))
         P.oblige(f"{pre}.grid_not_narrowed", z3.BoolVal(len(call.grid.d["innovation_filtering"].items) == 3 and len(call.grid.d["process_noise"].items) == 2))
@@ -338,6 +357,41 @@ def native_grid(run):
             problems.append("exported filter does not carry the selected hyper-parameters")
         if fit.history() != [ui.StateId.Start, ui.StateId.Symbolic_Model, ui.StateId.Fit_Model] or st.history() != [ui.StateId.Start, ui.StateId.Symbolic_Model]:
             problems.append(f"histories {fit.history()} / {st.history()}")
+    except Exception as e:
+        problems.append(f"{type(e).__name__}: {(str(e).splitlines() or [''])[0][:200]}")
+    return problems
+
+
+def native_two_fits(run):
+    """Two workflows fitted one after the other in ONE process.  The first grid pins innovation_filtering and max_dt_sec away from the
+    defaults; the second grid does not mention them: its exported filter must carry python.Config's defaults for them (nothing was
+    selected for those fields, and certainly not another workflow's candidates), and the first one's export is unchanged afterwards."""
+    import numpy as np
+
+    from replay import shim
+    from replay.native import repo_import
+
+    py = shim.install()
+    ui = repo_import("formak.ui")
+    dt, x, v, a = ui.Symbol("dt"), ui.Symbol("x"), ui.Symbol("v"), ui.Symbol("a")
+    model = ui.Model(dt=dt, state={x, v}, control={a}, state_model={x: x + dt * v, v: v + dt * a})
+    rng = np.random.default_rng(run.seed + 3)
+    data = np.column_stack([np.zeros(8), rng.normal(0, 0.5, 8)])
+    base = {"process_noise": [{a: 1.0}], "sensor_models": [{"pos": {"x": x}}], "sensor_noises": [{"pos": {"x": 1.0}}]}
+    problems = []
+    try:
+        fit1 = ui.DesignManager(name="first").symbolic_model(model=model).fit_model(parameter_space=dict(base, innovation_filtering=[7.0], max_dt_sec=[0.25]), data=data)
+        c1 = fit1.export_python().config
+        if (c1.innovation_filtering, c1.max_dt_sec) != (7.0, 0.25):
+            problems.append(f"first workflow (grid innovation_filtering=[7.0], max_dt_sec=[0.25]) exports ({c1.innovation_filtering}, {c1.max_dt_sec})")
+        fit2 = ui.DesignManager(name="second").symbolic_model(model=model).fit_model(parameter_space=dict(base), data=data)
+        c2 = fit2.export_python().config
+        d = py.Config()
+        if (c2.innovation_filtering, c2.max_dt_sec, c2.extra_validation, c2.common_subexpression_elimination) != (d.innovation_filtering, d.max_dt_sec, d.extra_validation, d.common_subexpression_elimination):
+            problems.append(f"second workflow in the same process, whose grid does not tune the configuration, exports (innovation_filtering={c2.innovation_filtering}, max_dt_sec={c2.max_dt_sec}); nothing selected these (defaults {d.innovation_filtering}, {d.max_dt_sec}; the FIRST workflow's grid had 7.0, 0.25)")
+        c1b = fit1.export_python().config
+        if (c1b.innovation_filtering, c1b.max_dt_sec) != (7.0, 0.25):
+            problems.append(f"after the second fit the first workflow exports ({c1b.innovation_filtering}, {c1b.max_dt_sec}) instead of its selected (7.0, 0.25)")
     except Exception as e:
         problems.append(f"{type(e).__name__}: {(str(e).splitlines() or [''])[0][:200]}")
     return problems
@@ -419,6 +473,11 @@ def check(run):
         run.findings.append(Finding("C18.py.native_small_data", "small-data", p, {"language": "python", "inputs": {"seed": run.seed, "small_data": True}, "oracle_verdict": p}, True))
     run.bounded.append({"what": "data sets of 0, 1 and 2 samples with 1 and 3 columns, as lists and arrays, must be refused with ModelFitError", "bound": "10 data sets", "failures": len(sd), "counted_as_proved": False})
     run.native_runs += 1
+    tf = native_two_fits(run)
+    run.bounded.append({"what": "native: two workflows fitted in one process (first grid pins innovation_filtering / max_dt_sec, second does not mention them): un-tuned fields of the second export are python.Config's defaults, the first export is unchanged", "bound": "2 fits x 1 grid point x 8 rows", "failures": len(tf), "counted_as_proved": False})
+    for p in tf[:1]:
+        run.findings.append(Finding("C18.py.native_two_fits", "two-fits", p, {"language": "python", "inputs": {"seed": run.seed, "two_fits": True}, "oracle_verdict": p}, True))
+    run.native_runs += 1
     gp = native_grid_points(run)
     for p in gp[:1]:
         run.findings.append(Finding("C18.py.native_grid_points", "grid", p, {"language": "python", "inputs": {"seed": run.seed, "grid_points": True}, "oracle_verdict": p}, True))
@@ -435,6 +494,11 @@ def replay_file(payload):
     if (payload.get("inputs") or {}).get("small_data"):
         p = native_small_data(driver.PropertyRun("C18", "quick", 0))
         print("replay C18 (small data sets):", p[:2] or "every data set with fewer than 3 samples is refused with ModelFitError")
+        return not p
+    if (payload.get("inputs") or {}).get("two_fits"):
+        run0 = driver.PropertyRun("C18", "quick", (payload.get("inputs") or {}).get("seed", 0))
+        p = native_two_fits(run0)
+        print("replay C18 (two fits in one process):", p[:2] or "each export carries its own grid's candidates and defaults elsewhere")
         return not p
     if (payload.get("inputs") or {}).get("grid_points"):
         run0 = driver.PropertyRun("C18", "quick", 0)
